@@ -61,6 +61,7 @@ type Run struct {
 	inconclusive string
 	extra        map[string]any
 	exhaustive   bool
+	sigCounts    map[string]int
 }
 
 func env(k, def string) string {
@@ -92,6 +93,7 @@ func New(id, part, level string) *Run {
 		knownHits:  map[string]int{},
 		maxSamples: 6,
 		extra:      map[string]any{},
+		sigCounts:  map[string]int{},
 	}
 	r.loadKnown()
 	return r
@@ -215,7 +217,8 @@ func (r *Run) Violation(sig string, witness any) {
 		}
 	}
 	r.violations++
-	if r.written >= 8 {
+	r.sigCounts[sig]++
+	if r.written >= 8 || r.sigCounts[sig] > 2 {
 		return
 	}
 	r.written++
@@ -294,6 +297,9 @@ func (r *Run) Finish() int {
 		if n := r.knownHits[k.ID]; n > 0 {
 			fmt.Printf("KNOWN-FINDING: property=%s %s (%s; observed %d times)\n", r.ID, k.What, k.ID, n)
 		}
+	}
+	for sg, n := range r.sigCounts {
+		fmt.Printf("VIOLATION-SIGNATURE x%d: %s\n", n, sg)
 	}
 	fmt.Printf("SUMMARY property=%s part=%s tier=%s seed=%d evaluations=%d distinct_nontrivial=%d violations=%d wall=%.1fs\n",
 		r.ID, r.Part, r.Tier, r.Seed, r.evaluations, len(r.distinct), r.violations, time.Since(r.start).Seconds())
